@@ -617,9 +617,6 @@ func (e *engine) finishCall(c int, o *StepObs) bool {
 	}
 	x.inCall = false
 	x.win = false
-	if x.api == shortAPI && !x.expired && rc == 4 {
-		e.out.Unreliable = "the real deadline fired before the schedule's"
-	}
 	e.out.Kinds[fmt.Sprintf("ret:%s:%d", x.api, rc)]++
 	if x.api == "Unlock" {
 		if rc == 1 {
